@@ -160,6 +160,59 @@ def roundtrip(part, fmt, n, offset, kind, bonded, route, tmpdir):
     part.outcome((fmt, kind, bonded, route, n >= 100))
 
 
+def provenance_roundtrip(part, fmt, n, prov, how, tmpdir):
+    """
+    molecules that were themselves read from a file (optionally keeping the source text) and then moved:
+    the written file must describe the molecule as it is NOW
+    """
+    from chmpy.core.molecule import Molecule
+
+    zs = element_list(n, 7)
+    pos = positions(n, "generic", False)
+    case = {"kind": "provenance", "fmt": fmt, "n": n, "prov": prov, "how": how}
+    key = "provenance:%s:%s:%s" % (prov, how, fmt)
+    part.ev()
+    part.tr(3)
+    try:
+        m0 = make_molecule(zs, pos, False)
+        d = tempfile.mkdtemp(dir=tmpdir)
+        if prov == "sdf-keep-text":
+            p0 = os.path.join(d, "src.sdf"); m0.save(p0); m = Molecule.load(p0, keep_sdf_text=True)
+        elif prov == "sdf":
+            p0 = os.path.join(d, "src.sdf"); m0.save(p0); m = Molecule.load(p0)
+        else:
+            p0 = os.path.join(d, "src.xyz"); m0.save(p0); m = Molecule.load(p0)
+        base = np.array(m.positions, dtype=float)
+        t = np.array([1.5, -2.25, 0.75])
+        if how == "translate":
+            m.translate(t); want = base + t
+        elif how == "translated":
+            m = m.translated(t); want = base + t
+        elif how == "assign":
+            m.positions = base * 2.0 + t; want = base * 2.0 + t
+        else:
+            want = base
+        p1 = os.path.join(d, "out." + fmt)
+        m.save(p1)
+        text = open(p1).read()
+        back = Molecule.load(p1)
+        shutil.rmtree(d, ignore_errors=True)
+    except Exception as e:
+        part.fail(key + ":raise", "%s molecule (%s) -> %s raised %s: %s" % (prov, how, fmt, type(e).__name__, str(e)[:80]), case)
+        return
+    tol = 5.0e-13 if fmt == "xyz" and prov == "xyz" else 1.0e-4
+    if not isinstance(back, Molecule) or [int(z) for z in back.atomic_numbers] != zs:
+        part.fail(key + ":elements", "%s molecule (%s) written to %s reads back with other elements" % (prov, how, fmt), case)
+        return
+    dev = np.abs(np.asarray(back.positions) - want).max()
+    if dev > tol:
+        part.fail(key + ":coords", "%s molecule after %s, written to %s, reads back %.4g A away from its current coordinates (stale source data?)" % (prov, how, fmt, dev), case)
+    if fmt == "sdf":
+        check_sdf_text(part, text, zs, want, key, "%s molecule after %s" % (prov, how), case)
+    part.outcome(("prov", prov, how, fmt))
+    part.state(("prov", prov, how, fmt, n))
+
+
 def worker(part, jobs):
     tmpdir = tempfile.mkdtemp(prefix="c16_", dir="/dev/shm" if os.path.isdir("/dev/shm") else None)
     try:
@@ -171,6 +224,8 @@ def worker(part, jobs):
                 xyz_read(part, job[1])
             elif job[0] == "multi":
                 multi_sdf(part, job[1], job[2])
+            elif job[0] == "prov":
+                provenance_roundtrip(part, *job[1:], tmpdir=tmpdir)
     finally:
         shutil.rmtree(tmpdir, ignore_errors=True)
 
@@ -278,8 +333,13 @@ def run(ctx):
     for k in (1, 2, 3):
         for source in ("writer", "reference"):
             jobs.append(("multi", k, source))
+    for fmt in ("xyz", "sdf"):
+        for n in (3, 12):
+            for prov in ("xyz", "sdf", "sdf-keep-text"):
+                for how in ("none", "translate", "translated", "assign"):
+                    jobs.append(("prov", fmt, n, prov, how))
     ctx.rule = ("{xyz, sdf} x atom counts %s x 3 element offsets (lists cycle through all 103 elements) x coordinate kinds %s x bonded/unbonded x "
-                "string/file routes%s; XYZ reading of all 103 symbols x 3 letter cases x 4 separator styles; SDF texts with 1-3 records from the "
+                "string/file routes%s; molecules read from xyz/sdf (with and without the kept source text) and then moved in 3 ways before being written; XYZ reading of all 103 symbols x 3 letter cases x 4 separator styles; SDF texts with 1-3 records from the "
                 "writer and from the column reference; every SDF text checked against the V2000 column layout; states = distinct molecule "
                 "configurations" % (COUNTS, COORD_KINDS, "" if ctx.thorough else " (non-default offsets/file route under a one-deviation bound)"))
     ctx.bounds = {"counts": COUNTS, "coordinate_kinds": COORD_KINDS, "jobs": len(jobs)}
@@ -299,5 +359,11 @@ def replay(ctx, case):
             shutil.rmtree(d, ignore_errors=True)
     elif k == "xyzread":
         xyz_read(ctx, case["z"])
+    elif k == "provenance":
+        d = tempfile.mkdtemp(prefix="c16_")
+        try:
+            provenance_roundtrip(ctx, case["fmt"], case["n"], case["prov"], case["how"], d)
+        finally:
+            shutil.rmtree(d, ignore_errors=True)
     else:
         multi_sdf(ctx, case["k"], case["source"])
